@@ -28,7 +28,7 @@ def base_ports(rng, n):
 class C13(Prop):
     ID = 'C13'
     N_QUICK = 320
-    N_THOROUGH = 1500
+    N_THOROUGH = 1200
     CASE_TIMEOUT = 120
     RULE = ('scripted histories of one master/slave pair in virtual time: 1-4 ports (number/boolean, some read-only, '
             'disabled, with a custom attribute), sync mode listen or poll, request latency 1-200 ms, outages with '
